@@ -164,8 +164,5 @@ pub fn replay(r: &Value) -> bool {
         _ => table(&Ctx { tier: "quick".into(), seed: 1, profile: "release".into(), args: vec![] }, &mut rep),
     }
     println!("stats {:?}", rep.stats);
-    for v in &rep.violations {
-        println!("{}: {}", v.signature, v.detail);
-    }
-    rep.violations.is_empty()
+    crate::util::print_replay(&rep)
 }
